@@ -121,4 +121,13 @@ CHECKS = {
                 "no hang; non-trivial = some workload and a preemption",
         "assumptions": ["PARTIAL: cross-layer propagation/joining is decided by the monitor on explored schedules; the gate protocol is proved for any number of threads"],
     },
+    "C04": {
+        "modules": ["p_c04"],
+        "rule": "seeded scenarios on real stacks: depth 1-4 over the seven layer kinds, base sync or the real ThreadPoolExecutor, client programs "
+                "of 1-3 threads x 1-4 operations {submit, submit whose callable submits again, cancel, add_done_callback, add_done_callback "
+                "whose callback submits again, result}, map functions that submit again, optional shutdown thread; x {random, sticky, PCT} "
+                "schedules; deadlock = every unfinished thread blocked and no timer (or only periodic timers firing for ever); each deadlock is "
+                "classified by its wait-for graph (who waits for which named lock held by whom); non-trivial = nested submissions or >= 2 threads",
+        "assumptions": ["PARTIAL: the lock-order theorem is proved for arbitrary lock programs; that the library's composed lock programs respect one order (outside G10) is decided by the explored schedules, not proved"],
+    },
 }
